@@ -131,12 +131,24 @@ BFCases(e1) ==
                 f \in ForeignFactors(E4)}
         ELSE {})
 
+\* operator pairs of the same C++ type that differ only in their run-time state (a scalar, the
+\* multiply/divide flag, the factor spline), applied to the very same spline object: bf(a, a)
+SamePairs == {<<S1("ScalL", "T", RTwo, Xn(1)), S1("ScalL", "T", R(1, 2), Xn(1))>>,
+              <<S1("ScalR", "T", FromInt(3), Dn(1)), S1("ScalR", "T", FromInt(-1), Dn(1))>>,
+              <<S1("Div", "T", RTwo, Xn(1)), S1("ScalR", "T", RTwo, Xn(1))>>,
+              <<S1("AddSR", "T", ROne, Dn(1)), S1("AddSR", "T", RTwo, Dn(1))>>}
+SameFirst == {p[1] : p \in SamePairs}
+SameCases(e1) ==
+  {[op |-> "OpBF", tag |-> "bf", e1 |-> e1, e2 |-> p[2], a |-> OneVar(S, o), b |-> OneVar(S, o), fs |-> <<>>, fshare |-> 1, sameobj |-> so] :
+     p \in {q \in SamePairs : q[1] = e1}, S \in SupportsOn(E4), o \in 0..2, so \in {0, 1}}
+
 CasesFor(e) ==
+  (IF e \in SameFirst THEN SameCases(e) ELSE {}) \cup
   (IF e \in Prims THEN PrimCases(e) ELSE {})
   \cup (IF e \in Exprs THEN ExprCases(e) ELSE {})
   \cup (IF e \in BFOps THEN BFCases(e) ELSE {})
 
-Init == \E e \in Prims \cup Exprs \cup BFOps : st = [ph |-> 0, e |-> e]
+Init == \E e \in Prims \cup Exprs \cup BFOps \cup SameFirst : st = [ph |-> 0, e |-> e]
 Next == /\ st.ph = 0
         /\ \E c \in CasesFor(st.e) : st' = [ph |-> 1, c |-> c]
 Spec == Init /\ [][Next]_st
